@@ -401,3 +401,5 @@ def run(ctx):
     ctx.coverage["rule"] = ("A: seeded rw histories (write/read/seek with every whence x {plain, SFM_READ, SFM_WRITE}, truncate, header update, close/re-open) on every RAW/AU/WAV encoding over "
                             "virtual I/O and descriptors, byte-exact against the Lean handle model; B: for every sample-granular container that opens SFM_RDWR, histories from an empty and a "
                             "pre-populated file checked op by op against the abstract file of the statement (frame list, read position, write position) using a lossless caller type")
+    from .. import handleg       # (round 9) the GENERIC handle machine Sf.HandleG: whole histories incl. re-open in SFM_RDWR on AIFF (fresh) / CAF / W64 / AVR / IRCAM / PAF / HTK byte for byte incl. store dumps
+    handleg.run(ctx, "C08", 150 if quick else 3000)
